@@ -49,9 +49,12 @@ def plan(tier, seed):
         specs.append(dict(kind='syntax', sub=k,
                           formulas=200 if tier == 'thorough' else 60,
                           auto=(k % 2 == 1), hashseed=k))
+    for k in range(2 if tier == 'quick' else 8):
+        specs.append(dict(kind='stack', sub=k, auto=(k % 2 == 0),
+                          hashseed=k))
     meta = dict(
         rule=RULE,
-        require=['faults_injected', 'faults_raised', 'post_fault_checks',
+        require=['stack_exhaustions', 'faults_injected', 'faults_raised', 'post_fault_checks',
                  'syntax_faults', 'file_faults', 'kinds_raised',
                  'steps', 'shutdown_checks'],
         assumptions=['a rejected call is one that raises; calls of the '
@@ -564,6 +567,148 @@ def syntax(ctx, spec):
         reg.uninstall()
 
 
+def stack(ctx, spec):
+    """Calls that fail by exhausting the call stack (`RecursionError`
+    with the interpreter's default limit) on diagrams over more than a
+    thousand levels: afterwards structure and reference counts are intact,
+    work goes on, and everything can be released."""
+    import collections
+    import sys
+    import dd.autoref as _a
+    import dd.bdd as _b
+    import dd._copy as _c
+    rng = ctx.rng('stack', spec['sub'])
+    auto = spec['auto']
+    reg = None
+    if auto:
+        reg = monitors.HandleRegistry()
+        reg.install()
+    limit = sys.getrecursionlimit()
+    pid = os.getpid()
+    try:
+        n = rng.choice((1100, 1300, 1500))
+        names = [f'v{i}' for i in range(n)]
+        bdd = _a.BDD() if auto else _b.BDD()
+        bdd.declare(*names)
+        raw = bdd._bdd if auto else bdd
+        ext = collections.Counter()
+        f = bdd.cube({v: rng.random() < 0.7 for v in names})
+        g = bdd.false
+        if not auto:
+            raw.incref(f)
+            ext[abs(f)] += 1
+            raw.incref(g)
+        for v in reversed(names):
+            x = bdd.var(v)
+            g2 = bdd.apply('xor', g, x)
+            if not auto:
+                raw.incref(g2)
+                raw.decref(g)
+            g = g2
+        del x, g2
+        if not auto:
+            ext[abs(g)] += 1
+        other = _a.BDD() if auto else _b.BDD()
+        other.declare(*names)
+
+        def external():
+            if auto:
+                return collections.Counter(reg.external(raw))
+            return ext
+
+        def intact(site):
+            gc.collect()
+            try:
+                monitors.check_structure(raw)
+                monitors.check_order_maps(bdd)
+                monitors.check_ledger(raw, external())
+            except Violation as v:
+                v.site = site
+                raise
+            ctx.counters['post_fault_checks'] += 1
+        intact('build')
+        calls = [
+            ('to_expr', lambda: bdd.to_expr(g)),
+            ('count', lambda: bdd.count(g)),
+            ('support', lambda: bdd.support(g)),
+            ('copy', lambda: bdd.copy(g, other)),
+            ('exist', lambda: bdd.exist([names[-2]], g)),
+            ('let-const', lambda: bdd.let({names[-2]: False}, g)),
+            ('let-rename', lambda: bdd.let({names[-1]: names[0]}, f)),
+            ('apply', lambda: bdd.apply('and', f, g)),
+            ('dump-pickle', lambda: bdd.dump(f's{pid}.p', [g])),
+            ('descendants', lambda: raw.descendants([g if not auto
+                                                     else g.node])),
+        ]
+        if auto:
+            calls += [
+                ('dump-json', lambda: bdd.dump(f's{pid}.json', [f])),
+                ('_copy.copy_bdd', lambda: _c.copy_bdd(g, other)),
+                ('Function.to_expr', lambda: g.to_expr()),
+                ('len', lambda: len(g)),
+            ]
+        rng.shuffle(calls)
+        sys.setrecursionlimit(1000)
+        for name, fn in calls:
+            site = 'stack-exhausted-in-' + name
+            try:
+                r = fn()
+            except RecursionError:
+                r = None
+                ctx.counters['faults_raised'] += 1
+                ctx.counters['stack_exhaustions'] += 1
+                ctx.note('raised', site + ':RecursionError')
+            except Exception as e:
+                ctx.note('raised', f'{site}:{type(e).__name__}')
+                ctx.counters['faults_raised'] += 1
+            else:
+                ctx.counters['accepted_without_exception'] += 1
+            r = None
+            ctx.counters['faults_injected'] += 1
+            sys.setrecursionlimit(limit)
+            ok, _ = ctx.guard(site, intact, site, case=dict(spec=spec,
+                                                            call=name))
+            ctx.case(True, 'stack', name, n, auto)
+            if not ok:
+                return
+            sys.setrecursionlimit(1000)
+        sys.setrecursionlimit(limit)
+        # work goes on: a valid operation, a JSON round trip (scratch
+        # shelf left clean ?), collection, release of everything
+        h = bdd.apply('or', f, g)
+        if not auto:
+            raw.incref(h)
+            ext[abs(h)] += 1
+        intact('after-valid-operation')
+        if auto:
+            bdd.dump(f's{pid}.json', [f])
+            back = bdd.load(f's{pid}.json')
+            if back[0] != f:
+                raise Violation('load-json', 'round-trip-differs', None)
+            del back
+        bdd.collect_garbage()
+        intact('collect_garbage')
+        if not auto:
+            for u in (f, g, h):
+                raw.decref(u)
+            ext.clear()
+        del f, g, h
+        gc.collect()
+        bdd.collect_garbage()
+        if len(raw) != 1:
+            raise Violation('shutdown',
+                            'nodes-left-after-releasing-everything', len(raw))
+        ctx.counters['shutdown_checks'] += 1
+    finally:
+        sys.setrecursionlimit(limit)
+        for fn in (f's{pid}.p', f's{pid}.json'):
+            if os.path.exists(fn):
+                os.remove(fn)
+        if reg:
+            reg.uninstall()
+
+
 def run_shard(ctx, spec):
-    fn = dict(inject=injected_history, syntax=syntax)[spec['kind']]
+    fn = dict(inject=injected_history, syntax=syntax,
+              stack=stack)[spec['kind']]
     ctx.guard(spec['kind'], fn, ctx, spec, case=spec)
